@@ -10,8 +10,15 @@
       setter only looks keywords up ([set_edges_for_ext], [set_dists_for_ext]).
     - surplus: every leaf setter called with [a ++ extra], where [a] already covers the leaf's
       parameters, does what it does with [a] and returns [extra] appended to the rest.
-    - own parameters: instance of the forward traversal [mid_lit_accept] (NamedMidlineMore.v)
-      and of the keyword round trip [mid_set_get_keyword] (ParamsMidline.v).
+    - own parameters: the call is the full keyword assignment of SafeMidline.v with the current
+      values: it is accepted ([SafeMidline.m_set_accept]; hypotheses: values in range, every
+      sub-model accepts the reported distribution parameters), and the keyword round trip
+      [mid_set_get_keyword] (ParamsMidline.v) gives the unchanged report.  For an object in the
+      synchronisation invariant of C11 ([Sync.m_consistent]) the explicit final object of
+      [m_set_accept] is the object itself (section 2'); without the invariant it is not
+      ([C10_mid_set_own_params_model_identity_refuted_stmt]).
+    - specific over global: the chain inversion lemmas of ParamsMidline.v and the exact look-up
+      a leaf performs for "arc_kind" ([lk_side_eq], [lk_glob_eq], [lk_nested_eq]).
     New file; nothing existing is changed. *)
 From LymphModel Require Import Base States Linalg Graph Transition Observation Dist Unilateral Models Params
   ParamsStatements ParamsLemmas ParamsProofs ParamsBilateral ParamsMidline ParamsMidlineMore
